@@ -8,6 +8,7 @@
     steps are also stated on their own (C06_duplicate_*_partial).  NOT PROVED: each distinct expression reached from
     one parent job is evaluated once (_pending_expr is not in the model). *)
 From Coq Require Import List ZArith Bool Arith Lia.
+From RV Require Model.PendingExpr Proofs.PendingExprFacts.
 From RV Require Import Model.JobMachine Proofs.JobBase Proofs.JobRes Proofs.JobRes3
   Proofs.JobOnce Proofs.JobOnce2 Proofs.JobOnce3 Proofs.JobCtx Proofs.JobDup Proofs.JobDup2 Proofs.JobDup3.
 Import ListNotations.
@@ -164,6 +165,20 @@ Example C06_context_twin_exact :
   let s := run (c06_cfg all_fixed) c06_ctx_witness in map jsubmits (jobs s) = [1; 1; 0].
 Proof. vm_compute. reflexivity. Qed.
 
+(** "Each distinct expression reached from the same parent job is evaluated once": the parent's table of pending
+    expressions (Model/PendingExpr.v — demands arriving over time, jobs concluding in between) creates exactly one
+    child job per distinct expression demanded, whenever the demands arrive, as long as entries live until the parent
+    is finalized (the shape the translator finds in `_evaluate_apply` / `_finalize_job`). *)
+Theorem C06_one_job_per_expression :
+  forall evs e, count_occ Nat.eq_dec (PendingExpr.child_jobs true evs) e = if PendingExpr.memb e (PendingExpr.demands evs) then 1 else 0.
+Proof. exact PendingExprFacts.finalized_one_job_per_expression. Qed.
+
+Example C06_one_job_per_expression_nonvacuous :
+  PendingExpr.child_jobs true [PendingExpr.Demand 7; PendingExpr.Demand 8; PendingExpr.Conclude 7; PendingExpr.Demand 7] = [7; 8] /\
+  PendingExpr.child_jobs false [PendingExpr.Demand 7; PendingExpr.Demand 8; PendingExpr.Conclude 7; PendingExpr.Demand 7] = [7; 8; 7].
+Proof. vm_compute. split; reflexivity. Qed.
+
+Print Assumptions C06_one_job_per_expression.
 Print Assumptions C06_one_submitter_per_key.
 Print Assumptions C06_duplicates_agree.
 Print Assumptions C06_preset_is_final.
